@@ -82,6 +82,23 @@ def opCmd (args : List String) : String :=
         s!"{kindName o.kind}:{o.par}:{match o.tag with | none => "all" | some t => toString t}")
       s!"{if rt then 1 else 0} D[{txt}]"
     | none => "parse-error"
+  | "parseatt" :: rest =>
+    -- nloads nfields (i<v> | all | junk)…  →  "error" | "ok lidx pulse|- tag|-"
+    let pF : P Fld := do
+      let t ← nextTok
+      if t == "all" then pure .all else if t == "junk" then pure .junk
+      else if t.startsWith "i-" then pure (.int (-(parseN (t.drop 2).toString : Int))) else pure (.int (parseN (t.drop 1).toString : Int))
+    let prog : P (Nat × List Fld) := do
+      let n ← pNat; let k ← pNat; let fs ← pRepeat pF k
+      pure (n, fs)
+    match prog.run rest with
+    | some ((n, fs), _) =>
+      match parseAttach n fs with
+      | .error _ => "error"
+      | .ok (l, p, t) =>
+        let sh : Option Int → String := fun o => match o with | none => "-" | some v => toString v
+        s!"ok {l} {sh p} {sh t}"
+    | none => "parse-error"
   | "media" :: rest =>
     -- inf circ radCount radRadius(-1 = not given, coded +1) n (eps sigma height coord+1|0)…
     -- → "error" or "ok" + the media the model builds + " | " + the options the model writes for them + round-trip flag
